@@ -19,7 +19,7 @@ from ..sym import R, real, rmax
 from . import kernel
 from . import mineral_h as mh
 from .C05 import uf_field
-from .common import all_eq, eq, pydrex_modules, sample
+from .common import all_eq, eq, pydrex_modules, sample, only_path
 
 TIMEOUT_MS = {"quick": 60000, "thorough": 300000}
 
@@ -135,7 +135,7 @@ def t_update_all(sess):
         return Fin, params, gv, path, out, list(calls)
 
     paths, info = sym.explore(fn)
-    p = paths[0]
+    p = only_path(sess, paths)
     Fin, params, gv, path, out, cs = p.value
     sess.satisfiable("update_all: reach", p.pc)
     sess.prove("update_all: every mineral is updated exactly once, in list order", p.pc, z3.BoolVal([c[0] for c in cs] == ["a", "b", "c"]))
